@@ -341,6 +341,64 @@ func checkC06(e *Engine, r *Report) {
 	r.MinInstances("R3 writers (libmem state)", n, 12)
 
 	c.checkJournaling(r)
+	// a request is dropped from the requests table by the revert only inside an open journal (i.e. only when this very
+	// transaction registered it): without a journal, revertJournal must not touch the table — otherwise a request refused
+	// before the journal was opened (duplicate id) would erase the existing allocation of that id
+	{
+		noJournal := func(cond ssa.Value) (bool, bool) {
+			b, ok := cond.(*ssa.BinOp)
+			if !ok || (b.Op != token.EQL && b.Op != token.NEQ) {
+				return false, false
+			}
+			for _, pr := range [][2]ssa.Value{{b.X, b.Y}, {b.Y, b.X}} {
+				if f, _ := loadedField(pr[0]); f == c.fJournal {
+					if k, isK := pr[1].(*ssa.Const); isK && k.IsNil() {
+						return true, b.Op == token.EQL
+					}
+				}
+			}
+			return false, false
+		}
+		isDeleteOfRequests := func(in ssa.Instruction) bool {
+			ci, ok := in.(ssa.CallInstruction)
+			if !ok {
+				return false
+			}
+			if bi, ok := ci.Common().Value.(*ssa.Builtin); ok && bi.Name() == "delete" && len(ci.Common().Args) == 2 {
+				if f, _ := loadedField(ci.Common().Args[0]); f == c.fRequests {
+					return true
+				}
+			}
+			// a (deferred) closure that deletes
+			for _, g := range e.Callees(ci) {
+				found := false
+				if g.Parent() != nil {
+					AllInstrs(g, func(x ssa.Instruction) {
+						if c2, ok := x.(ssa.CallInstruction); ok {
+							if bi, ok := c2.Common().Value.(*ssa.Builtin); ok && bi.Name() == "delete" {
+								if f, _ := loadedField(c2.Common().Args[0]); f == c.fRequests {
+									found = true
+								}
+							}
+						}
+					})
+				}
+				if found {
+					return true
+				}
+			}
+			return false
+		}
+		p := FindPath(PathQuery{Fn: c.revertJournal, Assume: noJournal, Target: isDeleteOfRequests})
+		nDel := 0
+		AllInstrs(c.revertJournal, func(in ssa.Instruction) {
+			if isDeleteOfRequests(in) {
+				nDel++
+			}
+		})
+		r.Check("R13:revert-deletes-only-in-open-journal", "R13 revert-on-failure", "revertJournal removes the requester from the requests table only when a journal is open (the transaction that registered it), also through deferred calls", e.Pos(c.revertJournal.Pos()), c.revertJournal, p == nil && nDel >= 1,
+			"reachable without a journal: "+e.pathString(p), true)
+	}
 	// single residence: a request is assigned to a zone only when it is in no zone — every zoneAssign call is for a
 	// fresh request (the one being admitted by allocate, or an offer's own request in Commit), or is preceded on every
 	// path by zoneRemove (or by a failed lookup in the users map) in the same function
